@@ -67,11 +67,19 @@ def canon_data(d: Any):
     return ("?", repr(d))
 
 
+def canon_ctx(d: Dict[str, Any]) -> Dict[str, Any]:
+    """Context values that are data objects (a probe may return one) are shown like data: ("F", value)."""
+    from semantiva.examples.test_utils import FloatDataCollection, FloatDataType
+
+    return {k: (canon_data(v) if isinstance(v, (FloatDataType, FloatDataCollection)) else v) for k, v in d.items()}
+
+
 def reset_log():
     from verif_lib import components
 
     del components.LOG[:]
     components.THE_ERROR.__traceback__ = None
+    components.EMPTY_ERROR.__traceback__ = None
     return components.LOG
 
 
@@ -101,6 +109,10 @@ class RealOutcome:
 
 def run_pipeline(pipeline, data, ctx: Dict[str, Any], scratch: Optional[str] = None) -> RealOutcome:
     """Run Pipeline.process(Payload(data, ContextType(ctx))) and observe everything the property mentions."""
+    return _run_pipeline_on(pipeline, data, dict(ctx), scratch)
+
+
+def _run_pipeline_on(pipeline, data, caller_ctx, scratch: Optional[str] = None) -> RealOutcome:
     from semantiva.context_processors import ContextType
     from semantiva.pipeline import Payload
 
@@ -108,7 +120,6 @@ def run_pipeline(pipeline, data, ctx: Dict[str, Any], scratch: Optional[str] = N
     log = reset_log()
     if scratch:
         clear_dir(scratch)
-    caller_ctx = dict(ctx)
     # remember what the orchestrator held before this run (its nodes may be reused or rebuilt — not our business)
     before_nodes = pipeline.orchestrator.last_nodes
     before_ids = [id(n) for n in before_nodes]
@@ -117,7 +128,7 @@ def run_pipeline(pipeline, data, ctx: Dict[str, Any], scratch: Optional[str] = N
         res = pipeline.process(Payload(data, ContextType(caller_ctx)))
         out.raw = res
         out.data = canon_data(res.data)
-        out.ctx = res.context.to_dict()
+        out.ctx = canon_ctx(res.context.to_dict())
     except BaseException as exc:  # noqa: BLE001 - KeyboardInterrupt is part of the alphabet
         out.exc = exc
         out.error = type(exc).__name__
@@ -132,8 +143,93 @@ def run_pipeline(pipeline, data, ctx: Dict[str, Any], scratch: Optional[str] = N
         else:
             out.status = "fail"
             out.index = started - 1
-        out.ctx = caller_ctx  # the run mutates the caller's mapping in place
+        out.ctx = canon_ctx(dict(caller_ctx))  # the run mutates the caller's mapping in place
     out.log = list(log)
     if scratch:
         out.files = read_files(scratch)
     return out
+
+
+# ---- per-node observation of the real run (no reference involved) -----------------------------------------------
+class RecDict(dict):
+    """The caller's context mapping, recording every mutation together with the node during which it happened."""
+
+    def __init__(self, *a, **k):
+        super().__init__(*a, **k)
+        self.events: List[tuple] = []  # (node index or None, "set" | "del", key)
+        self.cur: List[Optional[int]] = [None]
+
+    def __setitem__(self, k, v):
+        self.events.append((self.cur[0], "set", k))
+        super().__setitem__(k, v)
+
+    def __delitem__(self, k):
+        self.events.append((self.cur[0], "del", k))
+        super().__delitem__(k)
+
+    def pop(self, k, *d):
+        if k in self:
+            self.events.append((self.cur[0], "del", k))
+        return super().pop(k, *d)
+
+    def popitem(self):
+        k, v = super().popitem()
+        self.events.append((self.cur[0], "del", k))
+        return k, v
+
+    def update(self, *a, **kw):
+        for k in dict(*a, **kw):
+            self.events.append((self.cur[0], "set", k))
+        super().update(*a, **kw)
+
+    def setdefault(self, k, d=None):
+        if k not in self:
+            self.events.append((self.cur[0], "set", k))
+        return super().setdefault(k, d)
+
+    def clear(self):
+        for k in list(self):
+            self.events.append((self.cur[0], "del", k))
+        super().clear()
+
+    def __ior__(self, other):
+        self.update(other)
+        return self
+
+
+def run_observed(pipeline, data, ctx: Dict[str, Any], scratch: Optional[str] = None):
+    """run_pipeline + what each node really did to the context: returns (RealOutcome, per-node list of
+    {"set": keys assigned during the node and present when it returned, "del": keys removed during it and absent when it returned,
+     "post": the context when the node returned}, events outside any node).  Observation is on the caller's own mapping
+    (ContextType wraps it without copying) and on node entry / exit of _PayloadProcessor.process; the reference model is not consulted."""
+    from semantiva.pipeline import Pipeline
+    from semantiva.pipeline import payload_processors as pp
+
+    rec = RecDict(ctx)
+    per_node: List[dict] = []
+    orig = pp._PayloadProcessor.process
+
+    def process(self, payload=None):
+        if isinstance(self, Pipeline) or rec.cur[0] is not None:
+            return orig(self, payload)
+        idx = len(per_node)
+        per_node.append({"set": set(), "del": set(), "post": None, "returned": False})
+        rec.cur[0] = idx
+        try:
+            res = orig(self, payload)
+            per_node[idx]["returned"] = True
+            return res
+        finally:
+            rec.cur[0] = None
+            ev = [(op, k) for (i, op, k) in rec.events if i == idx]
+            per_node[idx]["set"] = {k for op, k in ev if op == "set" and k in rec}
+            per_node[idx]["del"] = {k for op, k in ev if op == "del" and k not in rec}
+            per_node[idx]["post"] = dict(rec)
+
+    pp._PayloadProcessor.process = process
+    try:
+        out = _run_pipeline_on(pipeline, data, rec, scratch)
+    finally:
+        pp._PayloadProcessor.process = orig
+    outside = [(op, k) for (i, op, k) in rec.events if i is None]
+    return out, per_node, outside
